@@ -96,16 +96,41 @@ def _execute(item):
     cfgid, hists = item
     s = _RUN["shape"]
     alone = D.alone_results(cfgid, s["pages"], s["nlines"], s["nk"])
-    return [D.run_history(cfgid, s["pages"], s["nlines"], s["nk"], list(h), alone=alone) for h in hists]
+    out = []
+    for n, h in enumerate(hists):
+        envs = None
+        if _RUN["envs"] == "rotate":
+            envs = D.envs_for(cfgid, n, len(h))
+        elif _RUN["envs"]:
+            envs = _RUN["envs"]
+        out.append(D.run_history(cfgid, s["pages"], s["nlines"], s["nk"], list(h), alone=alone, envs=envs))
+    return out
 
 
-def execute(s, hists):
+def execute(s, hists, envs=None):
+    """envs: None (every call in the building thread), "rotate" (pd_common.envs_for) or the list of one history (replay)"""
     by_cfg = {}
     for cfgid, h in hists:
         by_cfg.setdefault(cfgid, []).append(h)
     _RUN["shape"] = s
+    _RUN["envs"] = envs
     out = pmap(_execute, sorted(by_cfg.items()), procs=6)
     return [t for ts in out for t in ts]
+
+
+def environment_histories(ctx, s, hists):
+    """The histories of the shape once more, for the page contents decoded through the real LMWrapper (torch; the plain toy state
+    class does not touch torch), with the process_page calls spread over the execution environments of pd_common.ENVS: a worker
+    thread of the same process / the building thread after other code re-enabled autograd.  Property level only: every call must
+    give what the page gives alone (decoded in the building thread by a fresh instance)."""
+    sel = [(c, h) for c, h in hists if D.flavour_of(c)[0] == "wrapped" and len(h) >= 2]
+    if ctx.tier == "quick":
+        sel = [(c, h) for c, h in sel if D.flavour_of(c)[1] == D.BEAM or c % 2 == 1]      # beam 1 only with CARRY_H_OVER
+    traces = execute(s, sel, envs="rotate")
+    ctx.notes["environment_histories"] = {"shape": label(s), "histories": len(traces), "environments": list(D.ENVS),
+                                          "calls_per_environment": {e: sum(1 for t in traces for c in t["calls"] if c["env"] == e)
+                                                                    for e in D.ENVS}}
+    judge(ctx, s, traces, selftest=False, detailed=False, what="PageDecoder across threads / autograd modes")
 
 
 # ------------------------------------------------------------------ verdict
@@ -119,11 +144,14 @@ def describe(s, tr, progress):
         return "exception", "process_page raised %s" % call["outcome"]
     prev = [c for c in tr["calls"][:i - 1] if c["worker"] == call["worker"]]
     where = "first-call" if not prev else ("after-same-page" if prev[-1]["page"] == call["page"] else "after-other-page")
+    env = call.get("env", "main")
+    if env != "main":
+        where = {"thread": "in-worker-thread", "grad-on": "after-autograd-enabled"}.get(env, env)
     bad = [n + 1 for n, (a, b) in enumerate(zip(call["res"], call["alone"])) if a != b]
     via = call["via"] if "via" in call else "PageDecoder.process_page"
-    return ("history-dependent-result:%s" % where,
-            "call %d (%s, page %s, worker %d, CARRY_H_OVER=%s): line(s) %s transcribed %s, but %s when the page is decoded alone; "
-            "contexts the decoder started from: %s" % (i, via, call["page"], call["worker"], carry, bad,
+    return ("%s-dependent-result:%s" % ("history" if env == "main" else "environment", where),
+            "call %d (%s, page %s, worker %d, CARRY_H_OVER=%s, executed in: %s): line(s) %s transcribed %s, but %s when the page is decoded "
+            "alone; contexts the decoder started from: %s" % (i, via, call["page"], call["worker"], carry, env, bad,
                                                       [call["res"][n - 1] for n in bad], [call["alone"][n - 1] for n in bad],
                                                       [(d["line"], d["from"]) for d in call["decodes"]]))
 
@@ -145,7 +173,8 @@ def judge(ctx, s, traces, selftest=True, detailed=True, what="PageDecoder"):
         tr = traces[idx]
         sig, text = describe(s, tr, prog)
         hist[sig] = hist.get(sig, 0) + 1
-        ctx.violation({"shape": s, "cfgid": tr["cfgid"], "hist": tr["hist"], "kind": what, "trace": tr, "progress": prog}, sig,
+        ctx.violation({"shape": s, "cfgid": tr["cfgid"], "hist": tr["hist"], "envs": tr.get("envs", []), "kind": what, "trace": tr,
+                       "progress": prog}, sig,
                       "%s; shape %s, page content %d, history %s" % (text, label(s), tr["cfgid"], tr["hist"]))
     if not detailed:
         return rej
@@ -237,6 +266,8 @@ def check_shape(ctx, s):
                                                      "maximal_paths_executed": len(hists)})
     traces = execute(s, hists)
     judge(ctx, s, traces)
+    if s == shapes(ctx.tier)[0]:
+        environment_histories(ctx, s, hists)
 
 
 # ------------------------------------------------------------------ schedule clause through parse_folder.main()
@@ -272,12 +303,12 @@ def schedule_clause(ctx, cfgids, pages="ABC", nlines=2, nk=2):
                         p = D.page_of_file(P.name_of(ptoks))
                         w = run["page_workers"][n] if pc > 1 else 1
                         ok = run["exit"] in ("ok", "killed")
-                        calls.append({"page": p, "worker": w, "outcome": "ok" if ok else run["exit"], "via": "parse_folder " + name,
+                        calls.append({"page": p, "worker": w, "outcome": "ok" if ok else run["exit"], "env": "main", "via": "parse_folder " + name,
                                       "decodes": [], "res": [res[p], conf[p]], "alone": [alone[p], aconf[p]],
                                       "last_line": [], "has_h": False, "last_h": []})
                 for p in pages:
                     if p not in {c["page"] for c in calls}:
-                        calls.append({"page": p, "worker": 1, "outcome": "not-processed", "via": "parse_folder " + name, "decodes": [],
+                        calls.append({"page": p, "worker": 1, "outcome": "not-processed", "env": "main", "via": "parse_folder " + name, "decodes": [],
                                       "res": [res[p], conf[p]], "alone": [alone[p], aconf[p]], "last_line": [], "has_h": False,
                                       "last_h": []})
                 traces.append({"cfgid": cfgid, "hist": [[c["worker"], c["page"]] for c in calls], "calls": calls, "mode": name})
@@ -294,13 +325,16 @@ def run(ctx):
     logging.getLogger("pero_ocr").setLevel(logging.CRITICAL)     # lines without logits are part of the input space
     ctx.rule = ("every maximal path (history of process_page calls, page -> worker dispatch) of the TLC state graph of PageDecoder, "
                 "for every page content of the shape, replayed on real PageDecoder instances; non-trivial = CARRY_H_OVER on, >= 2 "
-                "calls and a line decoded after the first call; plus parse_folder.main() batches (alone / sequential / 2 processes / resumed)")
+                "calls and a line decoded after the first call; the histories of the first shape once more with the calls spread over "
+                "worker threads / re-enabled autograd (real LMWrapper page contents); plus parse_folder.main() batches (alone / "
+                "sequential / 2 processes / resumed)")
     ctx.exhaustive = True
     ctx.assume("toy language model whose hidden state is the sequence of symbols consumed (LMWrapper interface); optical evidence of "
                "decoded lines exactly tied between two letters so that the LM alone decides",
                "behind the real LMWrapper (every other page content) the toy LM is a torch module WITH dropout layers (recurrent part "
                "and output layer), handed over in training mode as construct_lm hands over a loaded LSTM LM: identical to the plain "
-               "context LM once the wrapper has put it into evaluation mode, RNG-dependent scores otherwise",
+               "context LM once the wrapper has put it into evaluation mode, RNG-dependent scores otherwise; its parameters (weights "
+               "equal to 1.0) require grad as those of any loaded model",
                "confident-line skipping: one threshold (0.9) separating lines with all frames >= 0.98 from lines with a 0.45 frame",
                "the layout / cropping / OCR stages are replaced by a stub (RNG-based tie-breakers of layout stages are outside the anchors)",
                "transcriptions are never empty (an empty last_line is not re-primed from)")
@@ -324,5 +358,6 @@ def replay(ctx, case):
     if case.get("kind") == "parse_folder":
         schedule_clause(ctx, [case["cfgid"]], pages=s["pages"], nlines=s["nlines"], nk=s["nk"])
         return
-    traces = execute(s, [(case["cfgid"], tuple((w, p) for w, p in case["hist"]))])
-    judge(ctx, s, traces, selftest=False)
+    envs = case.get("envs") or None
+    traces = execute(s, [(case["cfgid"], tuple((w, p) for w, p in case["hist"]))], envs=envs)
+    judge(ctx, s, traces, selftest=False, detailed=not envs)
